@@ -173,10 +173,7 @@ func sameJSON(a, b interface{}) bool {
 		if !ok {
 			return false
 		}
-		if x == 0 && y == 0 {
-			return true
-		}
-		return math.Float64bits(x) == math.Float64bits(y)
+		return math.Float64bits(x) == math.Float64bits(y) // -0 and 0 are different JSON numbers
 	case []interface{}:
 		y, ok := b.([]interface{})
 		if !ok || len(x) != len(y) {
@@ -325,7 +322,7 @@ func init() {
 		ID: "C11", Title: "JSON texts are expressions that denote themselves",
 		Rule: fmt.Sprintf("cases: (a) exhaustive: all %d string literals of <=3 units over a 20-unit alphabet of JSON escapes (incl. \\uXXXX and a surrogate pair), raw BMP/astral characters and JSONata metacharacters, each double-quoted and rewritten single-quoted; ", nStr) +
 			"(b) a fixed list of malformed texts (bad escapes, unpaired surrogates, out-of-range and non-JSON numbers, trailing commas, unterminated strings) that must be compile errors; (b2) the escape grid: \\u followed by each of the 20736 four-character strings over the alphabet 0 4 a F d 8 g + - space _ x, and a backslash followed by each printable ASCII character: what encoding/json accepts must denote the same value, everything else and lone surrogates must be compile errors; (c) PRNG-generated RFC 8259 texts of depth<=5, width<=4 with unique keys: every escape form, all number syntaxes (-0, exponent forms, 17+ digits, subnormals, 1e308), empty and nested containers, arbitrary inter-token whitespace. " +
-			"Oracle: encoding/json's decoding of the same text; EvalBytes(text-as-expression) on five different inputs (null, an object, an empty array, an array of empty containers, a string) must decode to exactly that value (numbers bit-for-bit except the sign of zero). non-trivial = every case; distinct by text",
+			"Oracle: encoding/json's decoding of the same text; EvalBytes(text-as-expression) on five different inputs (null, an object, an empty array, an array of empty containers, a string) must decode to exactly that value (numbers bit-for-bit, the sign of zero included). non-trivial = every case; distinct by text",
 		Assumptions: []string{"encoding/json is the JSON parser of reference, except for unpaired surrogates, where the statement (compile error) is the oracle", "object keys are unique"},
 		Plan: func(tier string, seed uint64) *fw.Plan {
 			nRand := int64(20000)
